@@ -39,6 +39,18 @@ type c11Gen struct {
 
 func (g *c11Gen) u() int { g.uniq++; return 10 + g.uniq }
 
+// val: the value stored by the next write — mostly a fresh number, one time
+// in four a value of another kind (nil first: a store of nil is a store).
+var c11OddVals = []string{"nil", bn.KwFalse, "nothing()", "\"\"", "0", bn.KwTrue, "\"s\"", "0.5", "{}", "[]", "wr"}
+
+func (g *c11Gen) val() (string, gElem) {
+	if g.pick("valKind", 4) != 1 {
+		v := g.u()
+		return fmt.Sprint(v), gElem{n: v}
+	}
+	return c11OddVals[g.pick("oddVal", len(c11OddVals))], gElem{n: -1}
+}
+
 func (g *c11Gen) newList(n int, allowNested bool) (*gList, string) {
 	g.nextID++
 	l := &gList{id: g.nextID}
@@ -49,9 +61,9 @@ func (g *c11Gen) newList(n int, allowNested bool) (*gList, string) {
 			l.elems = append(l.elems, gElem{sub: sub})
 			parts = append(parts, txt)
 		} else {
-			v := g.u()
-			l.elems = append(l.elems, gElem{n: v})
-			parts = append(parts, fmt.Sprint(v))
+			txt, e := g.val()
+			l.elems = append(l.elems, e)
+			parts = append(parts, txt)
 		}
 	}
 	return l, "[" + strings.Join(parts, ", ") + "]"
@@ -145,23 +157,23 @@ func (g *c11Gen) action() {
 			return
 		}
 		i := g.pick("index", len(lx.elems))
-		v := g.u()
-		lx.elems[i] = gElem{n: v}
+		v, e := g.val()
+		lx.elems[i] = e
 		g.mutated(lx)
-		g.w("wr(%s, %d, %d);", x, i, v)
+		g.w("wr(%s, %d, %s);", x, i, v)
 	case 5, 6: // indexed write
 		if len(lx.elems) == 0 {
 			g.w("%s %s;", bn.KwPrint, x)
 			return
 		}
 		i := g.pick("index", len(lx.elems))
-		v := g.u()
-		lx.elems[i] = gElem{n: v}
+		v, e := g.val()
+		lx.elems[i] = e
 		g.mutated(lx)
 		if g.pick("viaLen", 3) == 0 && i == len(lx.elems)-1 {
-			g.w("%s[%s(%s) - 1] = %d;", x, bn.BLen, x, v)
+			g.w("%s[%s(%s) - 1] = %s;", x, bn.BLen, x, v)
 		} else {
-			g.w("%s[%d] = %d;", x, i, v)
+			g.w("%s[%d] = %s;", x, i, v)
 		}
 	case 14: // unusual spellings of a valid index
 		if len(lx.elems) == 0 {
@@ -172,10 +184,10 @@ func (g *c11Gen) action() {
 		forms := []string{"(0 - 0) + %d", "(%d | 0)", "%d.0", "(%d * 1.0)", "(%d + 0.5 - 0.5)", "%d %% 1000", "(2 ** 53) - (2 ** 53) + %d", bn.BRound + "(%d.2)", "(-0) + %d"}
 		f := fmt.Sprintf(forms[g.pick("indexForm", len(forms))], i)
 		g.w("%s %s[%s];", bn.KwPrint, x, f)
-		v := g.u()
-		lx.elems[i] = gElem{n: v}
+		v, e := g.val()
+		lx.elems[i] = e
 		g.mutated(lx)
-		g.w("%s[%s] = %d;", x, f, v)
+		g.w("%s[%s] = %s;", x, f, v)
 	case 7: // লেন used as a number
 		switch g.pick("lenuse", 4) {
 		case 0:
@@ -197,9 +209,9 @@ func (g *c11Gen) action() {
 		nl := &gList{id: g.nextID, elems: append([]gElem{}, lx.elems...)}
 		args := []string{x}
 		for i := 0; i < n; i++ {
-			v := g.u()
-			nl.elems = append(nl.elems, gElem{n: v})
-			args = append(args, fmt.Sprint(v))
+			v, e := g.val()
+			nl.elems = append(nl.elems, e)
+			args = append(args, v)
 		}
 		if g.pushed == nil {
 			g.pushed = map[int]int{}
@@ -245,10 +257,10 @@ func (g *c11Gen) action() {
 		g.w("%s holder.p;", bn.KwPrint)
 		if len(lx.elems) > 0 && g.pick("viaHolder", 2) == 0 {
 			i := g.pick("index", len(lx.elems))
-			v := g.u()
-			lx.elems[i] = gElem{n: v}
+			v, e := g.val()
+			lx.elems[i] = e
 			g.mutated(lx)
-			g.w("holder.p[%d] = %d;", i, v)
+			g.w("holder.p[%d] = %s;", i, v)
 		}
 	default: // রিমুভ
 		if len(lx.elems) == 0 {
@@ -272,7 +284,7 @@ func (g *c11Gen) action() {
 var c11Faults = []string{"%s[(2 ** 1024)]", "%s[(2 ** 1024) - (2 ** 1024)]", "%s[2 ** 63]", "%s[9007199254740992]", "%s[0 - (2 ** 63)]", "%s[1 / 3]", bn.BRemove + "(%s, (2 ** 1024))", "%s[0.999999999999]", "%s[1 << 40]", "%s[~0]",
 	"%s[\"1.5\"]", "%s[\"0.5\"] = 1", bn.BRemove + "(%s, \"0.9\")", "%s[\"-1\"]", "%s[\"99\"]", "%s[\"১.৫\"]", "%s[\"1e-1\"]", "%s[\"nan\"]", bn.BRemove + "(%s, \"-0.5\")", "%s[\"-0.5\"] = 1",
 	"%s[0 - 1]", "%s[%s(%s)]", "%s[%s(%s) + 7]", "%s[0.5]", "%s[nil]", "%s[" + bn.KwTrue + "]", "%s[\"k\"]", "%s[[0]]",
-	"%s[0 - 1] = 1", "%s[%s(%s)] = 1", "%s[0.5] = 1", "%s[nil] = 1",
+	"%s[0 - 1] = 1", "%s[%s(%s)] = 1", "%s[0.5] = 1", "%s[nil] = 1", "%s[0 - 1] = nil", "%s[%s(%s)] = nil", "%s[%s(%s) + 7] = nothing()", "%s[0.5] = nil", "%s[\"k\"] = " + bn.KwFalse + "", "%s[nil] = nil",
 	bn.BRemove + "(%s, 0 - 1)", bn.BRemove + "(%s, %s(%s))", bn.BRemove + "(%s, 0.5)", bn.BRemove + "(%s, nil)", bn.BRemove + "(%s, \"k\")",
 	bn.BLen + "(5)", bn.BLen + "(nil)", bn.BLen + "(\"abc\")", bn.BLen + "({a: 1})", bn.BPush + "(5, 1)", bn.BPush + "(nil, 1)", bn.BRemove + "(5, 0)", bn.BRemove + "(\"abc\", 0)", "5[0]", "nil[0]", "\"abc\"[0]", "5[0] = 1"}
 
@@ -280,6 +292,7 @@ func (g *c11Gen) program(nActions int, fault int) string {
 	g.vars = map[string]*gList{}
 	g.names = []string{"A", "B", "C"}
 	g.w("%s wr(p, i, v) { p[i] = v; }", bn.KwFun)
+	g.w("%s nothing() { }", bn.KwFun)
 	g.w("%s holder = {p: nil};", bn.KwVar)
 	g.w("%s keep = [];", bn.KwVar)
 	g.w("%s mk() { %s [7, 8, 9]; }", bn.KwFun, bn.KwReturn)
@@ -335,7 +348,7 @@ func (c *Ctx) c11Program(s *Sub, sub, src string, nt bool, labels ...string) {
 	}
 }
 
-var c11Small = map[string]int{"x": 2, "y": 2, "nested": 1, "sublen": 1, "len": 2, "index": 2, "viaLen": 1, "lenuse": 4, "extras": 2, "drop": 1}
+var c11Small = map[string]int{"valKind": 2, "oddVal": 2, "x": 2, "y": 2, "nested": 1, "sublen": 1, "len": 2, "index": 2, "viaLen": 1, "lenuse": 4, "extras": 2, "drop": 1}
 
 func withSmall(over map[string]int, f func()) {
 	saved := map[string]int{}
